@@ -625,6 +625,26 @@ def parse_read_list(path):
     return header, rows
 
 
+def expected_readlist(case):
+    """what ReadList.write has to do, written down independently of the code and of the Lean model"""
+    if len(case["reads"]) != len(case["bipartition"]):
+        return {"err": "AssertionError"}
+    names = dict((i, n) for n, i in case["members"])
+    comps = {s: {p: c for p, c in cs} for s, cs in case["sample_comps"]}
+    rows = []
+    for rd, hap in zip(case["reads"], case["bipartition"]):
+        if rd["sample_id"] not in names or names[rd["sample_id"]] not in comps:
+            return {"err": "KeyError"}
+        if not rd["variants"]:
+            return {"err": "IndexError"}
+        first, last = rd["variants"][0][0], rd["variants"][-1][0]
+        c = comps[names[rd["sample_id"]]]
+        if first not in c:
+            return {"err": "KeyError"}
+        rows.append([rd["name"], rd["source_id"], names[rd["sample_id"]], c[first] + 1, hap, len(rd["variants"]), first + 1, last + 1])
+    return {"ok": rows}
+
+
 def do_readlist(ctx, batch, case):
     from whatshap.core import ReadSet, NumericSampleIds
     from whatshap.cli.phase import ReadList
@@ -647,21 +667,11 @@ def do_readlist(ctx, batch, case):
         if os.path.exists(path):
             os.remove(path)
     ctx.dist("readlist_outcome", impl.get("err", "ok"))
-    if "ok" in impl:
-        names = dict((i, n) for n, i in case["members"])
-        for rd, hap, row in zip(case["reads"], case["bipartition"], impl["ok"]):
-            first, last = rd["variants"][0][0], rd["variants"][-1][0]
-            want = [rd["name"], rd["source_id"], names[rd["sample_id"]], comps[names[rd["sample_id"]]][first] + 1, hap,
-                    len(rd["variants"]), first + 1, last + 1]
-            if row != want:
-                ctx.fail(f"read list row {row} should be {want} (phase set = 1 + component of the read's first variant)", case,
-                         key="read-list-row")
-                break
-        if len(impl["ok"]) != len(case["reads"]):
-            ctx.fail("read list does not have one row per read", case, key="read-list-row")
-        if len(case["reads"]) >= 2:
-            ctx.nontrivial(json.dumps(case, sort_keys=True))
-    else:
+    want = expected_readlist(case)
+    if impl != want:
+        ctx.fail(f"ReadList.write gave {json.dumps(impl)[:300]}, expected {json.dumps(want)[:300]} (one row per read, phase set = 1 + "
+                 f"component of the read's first variant)", case, key="read-list-row")
+    if "err" in impl or len(case["reads"]) >= 2:
         ctx.nontrivial(json.dumps(case, sort_keys=True))
 
     def cb(req, ans, impl=impl, case=case):
@@ -913,6 +923,19 @@ def check_pipe(ctx, batch, case, sc, samples, rin, rout, trace, stderr, read_row
             do_largest(ctx, batch, [list(c) for c in t["overall_components"]], {"kind": "largest", "comps": t["overall_components"]})
     if read_rows is not None and rl_pos != len(read_rows):
         ctx.fail(f"read list has {len(read_rows)} rows, the runs used {rl_pos} reads", case, key="read-list-row")
+    # ---- no phase set without reads used for phasing: a call of a sample / chromosome that was not phased in this run
+    #      (excluded by --chromosome / --sample) carries exactly the phase statement of the input
+    phased_here = {(t["chromosome"], s) for t in trace for s in t["family"]}
+    for i, (ri, ro) in enumerate(zip(min_rin, min_rout)):
+        for si, s in enumerate(samples):
+            if (rin[i]["chrom"], s) in phased_here:
+                continue
+            a, b = decode_call(ri["calls"][si], ri["format"]), decode_call(ro["calls"][si], ro["format"])
+            if b != a:
+                ctx.fail(f"sample {s} at {rin[i]['chrom']}:{rin[i]['pos'] + 1} carries the phase statement {b} in the output, {a} in the "
+                         f"input, although the sample was not phased on that chromosome in this run (no read of it was used)", case,
+                         key="phase-set-without-reads")
+                break
     # ---- the logged size of the largest block per family = size of a largest component
     if len(largest_logged) == len(with_largest):
         for n, t in zip(largest_logged, with_largest):
